@@ -27,7 +27,22 @@ class Body(object):
         self._content_data = None
 
     def __getattr__(self, key):
+        if key == 'file':
+            # Not yet initialised (for example while being copied): do not
+            # look 'file' up on itself over and over.
+            raise AttributeError(key)
+
         return getattr(self.file, key)
+
+    def __deepcopy__(self, memo):
+        # File objects cannot be copied; the copy gets its own in-memory
+        # file with the same content (the original may be closed
+        # independently).
+        with wpull.util.reset_file_offset(self.file):
+            self.file.seek(0)
+            data = self.file.read()
+
+        return Body(file=io.BytesIO(data))
 
     def content(self):
         '''Return the content of the file.
